@@ -288,6 +288,9 @@ class CallMixin:
                 # a library function with an assumed contract
                 yield from self.call_by_contract(st, lib_con, None, modname, None, lib_con.target, args, kw, None, node)
                 return
+        if name == "typing.cast" and len(args) == 2:
+            yield st, args[1]          # typing.cast returns its second argument unchanged
+            return
         if "." in name and not name.startswith(("math.", "$")):
             # a library function without a model: an unknown value; it may raise if the contract says so
             self.note_assumed(f"library call {name} (unknown result, no effect on tracked state)")
@@ -318,6 +321,9 @@ class CallMixin:
         elif isinstance(t, TSet):
             st, c = self.card(st, a)
             yield st, mk_int(c)
+        elif isinstance(t, TMap) and t.ordered:
+            st, n_, _at = self.okeys(st, a)
+            yield st, mk_int(n_)
         elif isinstance(t, TMap):
             st, c = self.card(st, vals.map_keys(a))
             yield st, mk_int(c)
@@ -843,6 +849,9 @@ class CallMixin:
         if isinstance(a.t, TTuple):
             st, d = self.domain_of(st, a)
             return self._dom_to_seq(st, d)
+        if isinstance(a.t, TMap) and a.t.ordered:
+            st, d = self.domain_of(st, a)
+            return self._dom_to_seq(st, d)
         if isinstance(a.t, (TSet, TMap)):
             st, d = self.domain_of(st, a)
             return self.bag_to_seq(st, Bag(d.kt, d.dom, d.elem, d.et))
@@ -903,6 +912,42 @@ class CallMixin:
             yield st, a
             return
         raise EngineError("dict() of non-dict")
+
+    def bi_dict_fromkeys(self, st, args, kw, node):
+        """dict.fromkeys(xs): the keys of xs inserted one after the other with value None (A-ODICT: the key set is the set of the
+        elements, a key's rank is the rank of its first occurrence)."""
+        if len(args) != 1 or kw:
+            raise EngineError("dict.fromkeys with a value")
+        a0 = self.as_value(args[0]) if not isinstance(args[0], (Bag, RangeVal, EnumVal, ZipVal)) else None
+        if a0 is not None and isinstance(a0.t, TTuple) and not a0.t.items:
+            yield st, V(TMap(TOpaque("$empty"), NONE), [z3.K(zsort(TOpaque("$empty")), z3.BoolVal(False))])
+            return
+        if a0 is not None and isinstance(a0.t, TOpt):
+            self.raise_(st, "TypeError", opt_isnone(a0))
+            st = st.assume(z3.Not(opt_isnone(a0)))
+            args = [opt_val(a0)]
+        st, s = self.to_seq(st, args[0])
+        kt = s.t.elem
+        if not comps(kt):
+            yield st, V(TMap(TOpaque("$empty"), NONE), [z3.K(zsort(TOpaque("$empty")), z3.BoolVal(False))])
+            return
+        if not kt.scalar:
+            raise EngineError(f"dict.fromkeys over non-scalar {kt}")
+        r = fresh(TMap(kt, NONE, ordered=True), "fromkeys")
+        h, rk = r.zs[0], r.zs[-1]
+        i, p, q, j = (z3.Int(fresh_name(n_)) for n_ in "ipqj")
+        k = z3.Const(fresh_name("k"), zsort(kt))
+        n = s.zs[0]
+        at = lambda ix: z3.Select(s.zs[1], ix)     # noqa: E731
+        first = z3.ForAll([j], z3.Implies(z3.And(0 <= j, j < q), at(j) != at(q)))
+        st = st.assume(z3.And(
+            z3.ForAll([i], z3.Implies(z3.And(0 <= i, i < n), z3.Select(h, at(i)))),
+            z3.ForAll([k], z3.Implies(z3.Select(h, k), z3.Exists([i], z3.And(0 <= i, i < n, at(i) == k)))),
+            z3.ForAll([p, q], z3.Implies(z3.And(0 <= p, p < q, q < n, at(p) != at(q), first),
+                                         z3.Select(rk, at(p)) < z3.Select(rk, at(q))))))
+        st = self.assume_wf(st, r)
+        self.note_assumed("A-ODICT: dict.fromkeys inserts the elements in iteration order")
+        yield st, r
 
     def bi_OrderedSet(self, st, args, kw, node):
         yield from self.bi_set(st, args, kw, node)
@@ -1252,6 +1297,10 @@ class CallMixin:
         yield st, ite(vals.map_has(recv, k), v, d), None
 
     def map_keys(self, st, recv, args, kw, node):
+        if recv.t.ordered:
+            # the keys view of an ordered map iterates, counts and tests membership like the map itself
+            yield st, recv, None
+            return
         yield st, vals.map_keys(recv), None
 
     def map_values(self, st, recv, args, kw, node):
